@@ -265,7 +265,7 @@ for _axes in AXES:
             _rot_clauses(h, M)
             h.check("no-translation", h.eq(M[:3, 3], [0.0, 0.0, 0.0]))
 
-        @contract("C19", TF + ".euler_from_matrix", name="roundtrip[%s]" % axes)
+        @contract("C19", TF + ".euler_from_matrix", name="roundtrip[%s]" % axes, timeout=90000, budget=600)
         def euler_roundtrip(h):
             ai, aj, ak = h.real("ai"), h.real("aj"), h.real("ak")
             tf = h.module(TF)
